@@ -61,6 +61,18 @@ var c01Entries = []c01Entry{
 		m := database.NewMonitoredDatabase(db)
 		return [][]database.SearchResult{m.SearchWithMonitoring(q, o.Limit), m.SearchWithMonitoring(q, o.Limit)}
 	}},
+	// entry points the cache layer wraps: the fuzzy search and the cached pipeline / fuzzy searches
+	{"fuzzy-search", func(db *database.Database, q string, o database.SearchOptions) [][]database.SearchResult {
+		return [][]database.SearchResult{db.SearchWithFuzzy(q, o)}
+	}},
+	{"cached-pipeline", func(db *database.Database, q string, o database.SearchOptions) [][]database.SearchResult {
+		c := database.NewCachedDatabase(db)
+		return [][]database.SearchResult{c.SearchWithPipelineOptionsAndCache(q, o), c.SearchWithPipelineOptionsAndCache(q, o)}
+	}},
+	{"cached-fuzzy", func(db *database.Database, q string, o database.SearchOptions) [][]database.SearchResult {
+		c := database.NewCachedDatabase(db)
+		return [][]database.SearchResult{c.SearchWithFuzzyAndCache(q, o), c.SearchWithFuzzyAndCache(q, o)}
+	}},
 	// one cached database asked the same query under a series of limits: every answer must respect ITS limit
 	{"cached-limit-series", func(db *database.Database, q string, o database.SearchOptions) [][]database.SearchResult {
 		return nil // handled specially (needs per-call limits)
